@@ -74,6 +74,8 @@ def _ctx_run(params, values):
     try:
         ref = None
         for name, (tpl, idx) in CONTEXTS.items():
+            if params.get("only") and name not in ("paragraph", params["only"]):
+                continue
             if name == "table" and ("|" in t or "\\" in t or "`" in t):
                 continue
             toks, env = pipeline_nn(md, tpl.format(t))
@@ -210,13 +212,19 @@ def jobs(tier, seed):
     for name, frag in FRAGMENTS:
         if tier == "thorough":
             frag = [p for q in frag for p in ([q, H("b")] if q == H("a") else [q])]
-        jobs.append({"harness": "contexts", "params": {"cfg": JS, "fragment": frag, "spec": specnl, "name": name}, "weight": 6, "cpu_cap": 2400, "wall_cap": 3600})
-    for sc in OPT_SCAFFOLDS:
+        elif name not in ("emph", "code", "link", "image", "entity", "escape", "html"):
+            continue
+        for other in ("heading", "list", "quote", "table"):
+            jobs.append({"harness": "contexts", "params": {"cfg": JS, "fragment": frag, "spec": specnl, "name": name, "only": other}, "weight": 6,
+                         "cpu_cap": 2400, "wall_cap": 3600, "path_cap": 120})
+    for si, sc in enumerate(OPT_SCAFFOLDS):
+        if tier == "quick" and si in (3, 4, 5):
+            continue
         if tier == "quick":
             fence = any(isinstance(p, str) and ("```" in p or "~~~" in p) for p in sc)
             sc1 = [("x" if p == H("b") else p) for p in sc]
             jobs.append({"harness": "options", "params": {"cfg": JS, "scaffold": sc1, "spec": spec, "name": "opts", "opts": ["hl", "lp"] if fence else ["xh", "br"]},
-                         "weight": 6, "cpu_cap": 2400, "wall_cap": 3600})
+                         "weight": 12, "cpu_cap": 2400, "wall_cap": 3600, "path_cap": 120})
         else:
             jobs.append({"harness": "options", "params": {"cfg": JS, "scaffold": sc, "spec": spec, "name": "opts"}, "weight": 30, "cpu_cap": 6000, "wall_cap": 7200})
     if tier == "thorough":
